@@ -501,6 +501,78 @@ def correspond(ctx, stream, cases, impl_fn, line_fn, canon=None, nontrivial=None
     return results
 
 
+class CtxLog:
+    """stand-in for Ctx inside a forked child: records count / incon calls so that the parent can replay them"""
+
+    def __init__(self, seed=0):
+        self.log = []
+        self.seed = seed
+
+    def count(self, key, n=1):
+        self.log.append(('count', key, n))
+
+    def incon(self, key):
+        self.log.append(('incon', key, 1))
+
+    def case(self, case, nontrivial=True):
+        self.log.append(('case', case, nontrivial))
+
+    def violation(self, what, replay, tags=()):
+        self.log.append(('violation', (what, replay), list(tags)))
+
+    def replay_into(self, ctx):
+        for kind, key, n in self.log:
+            if kind == 'count':
+                ctx.count(key, n)
+            elif kind == 'incon':
+                ctx.incon(key)
+            elif kind == 'case':
+                ctx.case(key, nontrivial=n)
+            else:
+                ctx.violation(key[0], key[1], tags=n)
+
+
+def forked(fn, *args, timeout=300):
+    """Run fn(*args) in a forked child and return ('ok', result) | ('crash', signal or exit code) | ('timeout', None).
+    Everything that calls the solver in-process goes through this: ECOS can die with a segmentation fault on degenerate data,
+    and that must cost one inconclusive case, not the check."""
+    import multiprocessing as mp
+    import pickle as _pickle
+    mctx = mp.get_context('fork')
+    parent, child = mctx.Pipe(duplex=False)
+
+    def work(conn):
+        try:
+            res = ('ok', fn(*args))
+        except BaseException as e:  # noqa: BLE001
+            res = ('exception', '%s: %s' % (type(e).__name__, str(e)[:300]))
+        try:
+            conn.send_bytes(_pickle.dumps(res))
+        finally:
+            conn.close()
+            os._exit(0)
+    p = mctx.Process(target=work, args=(child,))
+    p.start()
+    child.close()
+    res = None
+    try:
+        if parent.poll(timeout):
+            res = _pickle.loads(parent.recv_bytes())
+    except (EOFError, OSError):
+        res = None
+    if res is None and p.is_alive() and not parent.poll(0):
+        p.kill()
+        p.join()
+        return ('timeout', None)
+    p.join(5)
+    if p.is_alive():
+        p.kill()
+        p.join()
+    if res is None:
+        return ('crash', p.exitcode)
+    return res
+
+
 def load_corpus(prop):
     """Minimised past failures (and pinned replays of fixed findings); always run first."""
     d = os.path.join(VERIF, 'corpus', prop)
